@@ -22,11 +22,11 @@ def main():
                        "inexact float lengths ('log' transform, decimal lengths k/10): validated against the oracle by tolerance 1e-9 only, no model correspondence"]
     # T-gen: re-extract the core update steps from /repo's current source (translate/cores.py); the generated
     # obligations say the extracted IR is the reference program whose interpreter is proved equal to the model
-    ck.cov['cores'] = cores.generate(families=['floyd', 'path'])
+    ck.cov['cores'] = cores.generate(families=['floyd', 'path', 'pindist'])
     for p_ in ck.cov['cores']['problems']:
         ck.corr_break('core extractor (translate/cores.py)', p_)
     ok = ck.lean_gate(['BctVerif.Props.C12'], extra_modules=['BctVerif.Model.Dist'])
-    ck.lean_gate([], gen_modules=['BctVerif.Gen.CoresFloyd', 'BctVerif.Gen.CoresPath'])
+    ck.lean_gate([], gen_modules=['BctVerif.Gen.CoresFloyd', 'BctVerif.Gen.CoresPath', 'BctVerif.Gen.CoresPinDist'])
     if ck.tier == 'thorough' and ok:
         ck.leanchecker(['BctVerif.Props.C12', 'BctVerif.Model.Dist'])
     rp = json.load(open(ck.replay)) if ck.replay else None
